@@ -1,10 +1,10 @@
 SPECIFICATION Spec
 CONSTANTS
-  Roots <- G2Q_Roots
-  Ops <- G_Ops
+  Roots <- N_Roots
+  Ops <- N_KwOps
   Scheds = {"sync"}
   MaxDepth = 2
-  MaxRuns = 0
+  MaxRuns = 1
   MaxTasks = 12
   FftNeedsOneChunk = TRUE
   ChirpKeyByChannel = TRUE
@@ -12,8 +12,9 @@ CONSTANTS
   NumpyOps <- None_
   ReaderPerBlock = FALSE
   OverwriteTags <- None_
-  StickyKwargs = FALSE
+  StickyKwargs = TRUE
   LazySetitemLost = FALSE
   SharedHandle = FALSE
-INVARIANT EmitLeaf
+VIEW View
+INVARIANT SameAsNumpy
 CHECK_DEADLOCK FALSE
